@@ -552,8 +552,10 @@ fn chunk_summary_path(chunk: usize) -> String {
 /// binary (`hv worker c08sched <tier> <chunk> <nchunks>`), 16 at a time; each child writes a summary that is
 /// merged here.
 pub fn run(ctx: &Ctx) {
-    ctx.rule("schedule mode (scheduling shim, the harness picks every interleaving): a case is a (lifecycle script, schedule) pair. Systematic part: scripts `start, k tasks with every panic placement, [wait-all [, witness] | panicking task + witness], [stop], drop` for N in 1..3 and k up to 4, and for each script every schedule within the pass's bound (stateless DFS over the shim's choice points; delay bounding = number of deviations from the default scheduler, pre-emption bounding = number of switches away from a thread that could continue; a capped pass takes schedules from random places of the frontier). Random part: generated scripts over {start, execute (panicking or not), wait-all, witness, stop} with restarts of a stopped pool, N in 1..4, and a generated choice vector. Oracle at quiescence: every submitted task started exactly once and, unless it panics, finished exactly once; at most N tasks of one pool generation (one start()) between start and finish; the witness batch (N tasks that each wait for all N) completes; the caller never blocks forever (deadlock = no runnable thread) and never panics; every worker thread has exited. Non-trivial: the schedule deviates from the default one, or a task panics; distinct by (script, choice sequence)");
-    ctx.assume("schedule mode: scheduling points are the shim's operations (lock, send, recv, spawn, join, thread exit) plus one yield inside each task; memory-model effects below that granularity are not explored. The detached recovery thread may stay blocked forever");
+    if cfg!(humphrey_verif_shim) {
+        ctx.rule("schedule mode (scheduling shim, the harness picks every interleaving): a case is a (lifecycle script, schedule) pair. Systematic part: scripts `start, k tasks with every panic placement, [wait-all [, witness] | panicking task + witness], [stop], drop` for N in 1..3 and k up to 4, and for each script every schedule within the pass's bound (stateless DFS over the shim's choice points; delay bounding = number of deviations from the default scheduler, pre-emption bounding = number of switches away from a thread that could continue; a capped pass takes schedules from random places of the frontier). Random part: generated scripts over {start, execute (panicking or not), wait-all, witness, stop} with restarts of a stopped pool, N in 1..4, and a generated choice vector. Oracle at quiescence: every submitted task started exactly once and, unless it panics, finished exactly once; at most N tasks of one pool generation (one start()) between start and finish; the witness batch (N tasks that each wait for all N) completes; the caller never blocks forever (deadlock = no runnable thread) and never panics; every worker thread has exited. Non-trivial: the schedule deviates from the default one, or a task panics; distinct by (script, choice sequence)");
+        ctx.assume("schedule mode: scheduling points are the shim's operations (lock, send, recv, spawn, join, thread exit) plus one yield inside each task; memory-model effects below that granularity are not explored. The detached recovery thread may stay blocked forever");
+    }
     let exe = match std::env::current_exe() {
         Ok(e) => e,
         Err(e) => {
@@ -728,6 +730,12 @@ pub fn worker_main(args: &[String]) -> i32 {
 }
 
 fn run_chunk(ctx: &Ctx, chunk: usize, nchunks: usize) {
+    // ---- stress mode (real scheduler) share of this chunk
+    super::c08::run_stress_chunk(ctx, chunk, nchunks);
+    if ctx.n_violations() > 0 || !cfg!(humphrey_verif_shim) || std::env::var("HV_C08_NO_SCHED").is_ok() {
+        ctx.extra("schedule_mode", json!({"passes": [], "max_choice_points_in_one_execution": 0}));
+        return;
+    }
     // ---- systematic
     let mut pj = Vec::new();
     let mut maxcp = 0usize;
